@@ -27,7 +27,7 @@ RULE = ('directed corpus (docstring examples, boundaries) + seeded blocks; every
         'on-high, above, degenerate}; no operator x {equal, substring, superstring, other}; x separators of spaces '
         'and tabs. Inputs outside the documented grammar are run as DONT-CARE and only recorded. '
         'non-trivial = every case; distinct by (value, spec)')
-REQUIRED_CLAUSES = ['documented-keyword-call', 'extra-whitespace-around-spec', 'numeric-op', 'string-op', 'in', 'all-in', 'or', 'range-in', 'no-operator',
+REQUIRED_CLAUSES = ['concurrent-calls-answer-as-alone', 'documented-keyword-call', 'extra-whitespace-around-spec', 'numeric-op', 'string-op', 'in', 'all-in', 'or', 'range-in', 'no-operator',
                     'dont-care-recorded']
 ASSUMPTIONS = ['numeric oracle: exact rational comparison (fractions.Fraction built from the generated digit strings); '
                'asserted only for numerals with at most 15 significant digits, where float() is order- and '
@@ -38,6 +38,7 @@ ASSUMPTIONS = ['numeric oracle: exact rational comparison (fractions.Fraction bu
                'literal without leading zeros; other value spellings are DONT-CARE',
                'string order is Python str order (code points)']
 INTERPRETER_FLAGS = [[], ['-O'], [], ['-bb']]
+CONCURRENT = lambda case: True          # pure function of its arguments; see vlib/concurrent.py
 SHARDS = {'quick': 4, 'thorough': 16}
 MIN_DISTINCT = {'quick': 5000, 'thorough': 100000}
 
@@ -444,6 +445,20 @@ def gen_str(rng, op, rel):
 
 
 def gen_in(rng, want, variant):
+    if rng.random() < 0.12:
+        # the value looks like what <all-in> receives (the text of a list): <in> is still a plain substring test on
+        # that text, so an operand may straddle the quotes, commas and brackets
+        items = [gen_word(rng, 1, 4) for _ in range(rng.randrange(0, 4))]
+        value = rng.choice([str(items).replace(', ', ','), '[%s]' % ','.join(str(rng.randrange(100)) for _ in items) or '[]',
+                            str(items)])
+        for _ in range(30):
+            if want and len(value) >= 1:
+                a = rng.randrange(len(value))
+                w = value[a:a + rng.randrange(1, 5)]
+            else:
+                w = gen_word(rng, 1, 3) + rng.choice(["'", ',', ']', '[', "',", '0]'])
+            if valid_word(w) and (w in value) == bool(want):
+                return dict(kind='in', value=value, word=w, seps=gen_seps(rng, 1), sub='value is a list literal')
     w = gen_word(rng, 1, 5)
     pre, post = gen_word(rng, 1, 4), gen_word(rng, 1, 4)
     if want:
@@ -771,6 +786,15 @@ def block_cases(rng, b):
             out.append(base)
     return out
 
+
+
+def HAMMER(ctx):
+    from oslo_utils import specs_matcher
+    out = []
+    for value, spec in (('5', '>= 3'), ('2', '>= 3'), ('abc', 's== abc'), ('abc', 's!= abc'), ('12311321', '<in> 11'), ('aes mmx', '<all-in> aes mmx'),
+                        ('5', '<range-in> [ 1 5 )'), ('5', '<range-in> [ 1 5 ]'), ('x', '<or> x <or> y'), ('z', '<or> x <or> y'), ('plain', 'plain')):
+        out.append(('match(%r, %r)' % (value, spec), lambda a=value, b=spec: specs_matcher.match(a, b)))
+    return out
 
 def run(ctx):
     for i, case in enumerate(directed()):
